@@ -211,10 +211,59 @@ def gen_core_lines(rng, n):
 
 def model_line(line):
     t = line.split()
-    return "bin menc cbor " + " ".join(t[5:])
+    return "bin menc %s %s" % (t[2], " ".join(t[5:]))
+
+
+# every width boundary of the MessagePack / UBJSON integer ladders, each with both neighbours
+INT_EDGES = sorted({e + d for e in (0, 0x7f, 0x80, 0xff, 0x100, 0x7fff, 0x8000, 0xffff, 0x10000, 2 ** 31 - 1, 2 ** 31, 2 ** 32 - 1, 2 ** 32, 2 ** 63 - 1, 2 ** 63,
+                                     2 ** 64 - 1, -1, -32, -33, -128, -129, -32768, -32769, -2 ** 31, -2 ** 31 - 1, -2 ** 32, -2 ** 63)
+                    for d in (-1, 0, 1) if -2 ** 63 <= e + d < 2 ** 64})
+LEN_EDGES = sorted({e + d for e in (0, 15, 16, 31, 32, 127, 128, 255, 256, 32767, 32768, 65535, 65536) for d in (-1, 0, 1) if e + d >= 0})
+
+
+def gen_fmt_core_lines(rng, n, fmt):
+    """untagged values of the data-model core for `fmt`: the real encoder's bytes must equal the Lean encoder model's bytes.
+    Random nested values, then every integer-width boundary with both neighbours, every length boundary (text, byte string,
+    array, map) with both neighbours, and the doubles around the float32 shortcut."""
+    ls = []
+    imax = 2 ** 64 - 1 if fmt == "msgpack" else 2 ** 63 - 1
+    for _ in range(n):
+        v = strip_all_tags(gen_value(rng, rng.randint(0, 3), fmt, []))
+        kind = "j" if rng.random() < 0.6 else "o"
+        if kind == "j":
+            v = wire.sort_keys(v)
+        ls.append(enc_line(fmt, kind, "-", v))
+    for i in INT_EDGES:
+        ls.append(enc_line(fmt, "j", "-", i))                  # above imax (UBJSON: 2^63 … 2^64-1) both sides must refuse
+        ls.append(enc_line(fmt, "o", "-", [i, Obj([(b"k", i)])]))
+    for _ in range(200):
+        bits = rng.choice([7, 8, 15, 16, 31, 32, 33, 62, 63, 64])
+        i = rng.getrandbits(bits)
+        i = -i if rng.random() < 0.5 else i
+        ls.append(enc_line(fmt, "j", "-", max(min(i, imax), -2 ** 63)))
+    for m in LEN_EDGES:
+        ls.append(enc_line(fmt, "o", "-", bytes(rng.choice(b"abcxyz") for _ in range(m))))
+        ls.append(enc_line(fmt, "o", "-", ("b", bytes(rng.randrange(256) for _ in range(m)))))
+        ls.append(enc_line(fmt, "o", "-", [rng.choice([0, None, True, -1, b"", 255]) for _ in range(m)]))
+        # above 256 members: a sorted `json` fed in key order (building an insertion-ordered object is quadratic in the harness)
+        ls.append(enc_line(fmt, "o" if m <= 256 else "j", "-", Obj([(b"%05x" % i, rng.choice([None, 1, b"v"])) for i in range(m)])))
+        if m <= 256:
+            ls.append(enc_line(fmt, "o", "-", Obj([(b"k" * m, b"v" * m)])))          # the key uses the same length ladder as a text value
+    for b in F64 + [0x3690000000000000, 0x36a8000000000000, 0x380fffffe0000000, 0x3800000000000000, 0x37f0000000000000, 0x47f0000000000000, 0x47effffff0000000]:
+        ls.append(enc_line(fmt, "j", "-", ("d", b)))
+    for _ in range(150):
+        b = rng.getrandbits(64)
+        if rng.random() < 0.6:
+            b &= ~((1 << 29) - 1)                     # exactly representable as binary32 when the exponent is in range
+        if rng.random() < 0.5:
+            b = (b & ~(0x7ff << 52)) | (rng.choice([0, 1, 873, 874, 875, 895, 896, 897, 1023, 1150, 1151, 2046, 2047]) << 52)
+        ls.append(enc_line(fmt, "j", "-", ("d", b)))
+    return ls
 
 
 def compare_bytes(line, io, mo):
+    if mo == "err":
+        return io.startswith("err")          # the model refuses exactly what the real encoder refuses
     return io.split(" | ")[0] == mo
 
 
@@ -235,6 +284,18 @@ def oracle(line, impl, model, ref=None):
 
 
 def in_domain(fmt, v):
+    """UBJSON has no unsigned 64-bit integer: a value containing an integer above 2^63-1 is outside its domain"""
+    if fmt == "ubjson":
+        if isinstance(v, bool):
+            return True
+        if isinstance(v, int):
+            return v < 2 ** 63
+        if isinstance(v, list):
+            return all(in_domain(fmt, x) for x in v)
+        if isinstance(v, Obj):
+            return all(in_domain(fmt, x) for _, x in v.members)
+        if isinstance(v, Tagged):
+            return in_domain(fmt, v.value)
     return True
 
 
@@ -313,6 +374,12 @@ def streams(ctx, rng, scale):
     ctx.correspond("finding-witnesses", HARNESS, lw, oracle, nontrivial, want_model=False)
     lcore = gen_core_lines(rng, 1500 * scale)
     ctx.correspond("cbor-encoder-model", HARNESS, lcore, oracle, nontrivial, compare=compare_bytes, model_lines=[model_line(l) for l in lcore])
+    rngm = vlib.rng_for(ctx.seed, "c06/msgpack-model")
+    lmp = gen_fmt_core_lines(rngm, 1000 * scale, "msgpack")
+    ctx.correspond("msgpack-encoder-model", HARNESS, lmp, oracle, nontrivial, compare=compare_bytes, model_lines=[model_line(l) for l in lmp])
+    rngu = vlib.rng_for(ctx.seed, "c06/ubjson-model")
+    lub = gen_fmt_core_lines(rngu, 1000 * scale, "ubjson")
+    ctx.correspond("ubjson-encoder-model", HARNESS, lub, oracle, nontrivial, compare=compare_bytes, model_lines=[model_line(l) for l in lub])
     lbf = gen_bigfloat_lines(rng, 400 * scale)
     ctx.correspond("cbor-bigfloat-model", HARNESS, lbf, bigfloat_oracle, lambda l, i: l if len(l) > 60 else None, compare=compare_bigfloat,
                    model_lines=[bigfloat_model_line(l) for l in lbf])
